@@ -20,12 +20,17 @@ def readString (s : Bytes) : Option Bytes :=
 
 /-- E <heapsize> <rot> <code> <hextext|N> => <hex output> <count> -/
 def runErrStr (cfg : String) (inp : List String) (obs : List String) : Option Verdict := do
-  let [_, hs, rot, code, hx] := inp | none
+  let (hs, rot, code, hx, xl) ← (match inp with
+    | [_, hs, rot, code, hx] => some (hs, rot, code, hx, "")
+    | [_, hs, rot, code, hx, xl] => some (hs, rot, code, hx, xl)
+    | _ => none)
   let hs ← hs.toNat?; let rot ← rot.toNat?; let code ← parseInt code
+  -- explicit length argument of SCPI_ErrorPushEx ("x<n>"); 0 / absent = automatic (at most 255)
+  let explicit : Nat := if xl.startsWith "x" then (xl.drop 1).toString.toNat?.getD 0 else 0
   let text : Option Bytes ← if hx == "N" then some none else (unhex hx).map some
   let desc := Result.errorTranslate code
   -- what the queue stored: at most 255 bytes of the text, cut at a NUL
-  let stored := text.map (fun t => (t.takeWhile (· ≠ 0)).take 255)
+  let stored := text.map (fun t => (t.takeWhile (· ≠ 0)).take (if explicit == 0 then 255 else explicit))
   let parts : List (Option Bytes) :=
     if cfg == "C" then []
     else if cfg == "B" then
